@@ -778,7 +778,18 @@ theorem applyAct_invR_makeMut (r : Nat) : (applyAct s fh fw (.makeMut r)).InvR :
         simp only [applyAct, hu, hc, hv]
         have hvb : v.Below s.heap.length := h.val_below_of_cell hc hv
         split
-        · have h1 := h.cloneHandles v
+        · by_cases hsh : v.shallow = true
+          · simp only [if_pos hsh]
+            have h2 := h.alloc { v with vid := s.nextVid, held := [], weaks := [] }
+              ⟨Below_nil _, Below_nil _⟩
+            refine InvR.push (InvR.emit ?_ _) _ (fun f hf => ?_)
+            · refine h2.withProg _ rfl rfl ?_ h2.wroots_below h2.raws_below (fun _ hv => h2.vals_below hv)
+              exact h2.roots_below.set _ (by simp)
+            · simp only [List.mem_cons, List.mem_nil_iff, or_false] at hf
+              subst hf
+              exact Frame.below_rcDrop (by simp; omega)
+          simp only [if_neg hsh]
+          have h1 := h.cloneHandles v
           have hl := cloneHandles_heap_length s v
           have h2 := h1.alloc { v with vid := s.nextVid }
             ⟨hvb.1.mono (by omega), hvb.2.mono (by omega)⟩
@@ -880,6 +891,13 @@ theorem applyAct_invR_setPanic (q : Nat) : (applyAct s fh fw (.setPanic q)).InvR
     simp only [applyAct, hu]
     exact h.modVal o _ (fun v hv => hv)
 
+theorem applyAct_invR_setShallow (q : Nat) : (applyAct s fh fw (.setShallow q)).InvR := by
+  cases hu : s.useRoot q with
+  | none => simp only [applyAct, hu]; exact h.badRoot q
+  | some o =>
+    simp only [applyAct, hu]
+    exact h.modVal o _ (fun v hv => hv)
+
 theorem applyAct_invR_upgradeField (k : Nat) : (applyAct s fh fw (.upgradeField k)).InvR := by
   cases hn : nthMod fw k with
   | none => simp only [applyAct, hn]; exact h
@@ -939,6 +957,7 @@ theorem applyAct_invR (s : State) (fh fw : List Nat) (a : Act) (h : s.InvR)
   | counts r => exact applyAct_invR_counts s fh fw h r
   | wcounts w => exact applyAct_invR_wcounts s fh fw h w
   | setPanic q => exact applyAct_invR_setPanic s fh fw h q
+  | setShallow q => exact applyAct_invR_setShallow s fh fw h q
   | upgradeField k => exact applyAct_invR_upgradeField s fh fw h k
   | cloneField k => exact applyAct_invR_cloneField s fh fw h k he
 
